@@ -13,6 +13,7 @@ def build(tier, seed):
                 'closed-form cash amounts: criterion(constant sample at cash) == criterion(sample - target) proved as term identities (exp/log axioms, sum of a constant, order statistics of a constant multiset)',
                 'the bounds min <= cash <= max and cash <= mean for risk-averse criteria follow from the C04 bounds/Jensen lemma (trusted there); here only the certainty-equivalent identity and the wiring are decided',
                 'default search: decided as pre@callsite of bisect (C19\'s contract); where its requires hold the postcondition of bisect gives |cash - c*| <= precision',
+                'price for every n_times: modular - the loop-cut contract of ensemble_mean (every n_times) + price handing it the caller\'s n_times and a stateless function (pre@callsite); the value identity price == -mean cash is additionally run for n_times in {1,2}',
                 'price: "adding k to the payoff raises the price by k" follows from price == -cash(portfolio - payoff) (proved here) and translation-equivariance of the closed-form cash amounts (cash-invariance, C04); "same simulated paths" = the simulation is an arbitrary but fixed store',
             ],
             'level': 'proof', 'trusted_base': ['pfv executor + torch shim', 'z3 NRA/UF with exp/log axioms', 'bisect contract (C19)'],
